@@ -1036,8 +1036,12 @@ fn exec_userfunc_or_array_or_macro(song: &mut Song, t: &Token) -> bool {
     // eval function
     let tokens = song.functions[func_id].tokens.clone();
     let tmp_break_flag = song.flags.break_flag;
+    // the body's statements are statements, whether the call stands in an expression or not
+    let tmp_needs_return_value = song.flags.function_needs_return_value;
+    song.flags.function_needs_return_value = false;
     // println!("func_body={:?}", tokens);
     let eval_result = exec(song, &tokens);
+    song.flags.function_needs_return_value = tmp_needs_return_value;
     song.flags.break_flag = tmp_break_flag;
     let vars = song.variables_stack_pop();
     if song.flags.function_needs_return_value {
